@@ -1,0 +1,16 @@
+//go:build verif
+
+// Contracts for the Arc type helpers the opcode selection depends on (read as text by /verif's
+// govc; comment-only).
+
+package types
+
+//@ import strings "strings"
+
+//@ # the printed form of a scalar numeric type starts with "u" exactly for the unsigned integers
+//@ # (wasm.binaryOpcode selects the unsigned remainder from this prefix)
+//@ func (t Type) String() (s string)
+//@   theory strings
+//@   ensures (t.Kind == KindU8 || t.Kind == KindU16 || t.Kind == KindU32 || t.Kind == KindU64) ==> strings.HasPrefix(s, "u")
+//@   ensures (t.Kind == KindI8 || t.Kind == KindI16 || t.Kind == KindI32 || t.Kind == KindI64 || t.Kind == KindF32 || t.Kind == KindF64) ==> !strings.HasPrefix(s, "u")
+//@   modifies nothing
